@@ -260,6 +260,12 @@ func (w *world) Run(t *rt.Tape, trace bool) *core.Result {
 			circ2.AssignLevels(utils.TargetGMW)
 		}
 		in2 = gen.Inputs(t, circ2)
+		if circ2 == circ && t.Choose(rt.SGen, 2) == 0 {
+			// the same computation again on the same values: every party passes the very *big.Int it
+			// passed the first time (what it expects is what those values were when it made them)
+			in2 = in
+			res.Reach["second-run-with-the-same-input-values"]++
+		}
 		want2 = gen.Eval(circ2, in2)
 		res.Reach["second-run-on-the-same-network"]++
 	}
